@@ -34,7 +34,7 @@ Prior(T) ==
   ELSE IF T \in {"tp_s", "dur_s"} THEN <<"dur", 1, IntSmall(0)>>
   ELSE IF T = "vec_u8" THEN <<"bin", <<>>>>
   ELSE IF T \in {"vec_i32", "vec_str", "vec_vec_i32", "vec_vec_u8"} THEN <<"arr", <<>>>>
-  ELSE IF T \in {"map_str_i32", "map_i32_str"} THEN <<"map", <<>>>>
+  ELSE IF T \in {"map_str_i32", "map_i32_str", "map_tp_i32"} THEN <<"map", <<>>>>
   ELSE <<"none">>
 
 \* value a freshly created container element holds before it is loaded (value-initialised)
@@ -149,7 +149,8 @@ SortPairs(ps) == SortFrom(ps, 1, <<>>)
 LoadMapPairs(pairs, KT, VT, pol, i, acc) ==
   IF i > Len(pairs) THEN <<"val", acc>>
   ELSE LET key == pairs[i][1]
-           keyOk == (KT = "str" /\ key[1] = "str") \/ (KT = "i32" /\ key[1] = "int" /\ IntFits(key[2], key[3], "i32")) IN
+           keyOk == (KT = "str" /\ key[1] = "str") \/ (KT = "i32" /\ key[1] = "int" /\ IntFits(key[2], key[3], "i32"))
+                    \/ (KT = "tp_ns" /\ key[1] = "ts" /\ TsToNs(key)[1] = "val") IN
        \* an integer key the key type cannot represent follows the overflow policy: error, or the entry is skipped (key and value)
        IF KT = "i32" /\ key[1] = "int" /\ ~keyOk THEN (IF pol.ov = "throw" THEN Overflow(pol) ELSE LoadMapPairs(pairs, KT, VT, pol, i + 1, acc))
        ELSE IF ~keyOk THEN <<"any">>
@@ -287,10 +288,11 @@ LoadLeaf(v, T0, pol) ==
   ELSE IF T = "vec_vec_u8" THEN
        IF k = "arr" THEN (LET r == LoadElems(v[2], "vec_u8", pol, 1, <<>>) IN IF r[1] = "val" THEN <<"val", <<"arr", r[2]>>>> ELSE r)
        ELSE Mismatch(pol)
-  ELSE IF T \in {"map_str_i32", "map_i32_str"} THEN      \* std::map: entries come back ordered by key
-       IF k = "map" THEN
-            LET KT == IF T = "map_str_i32" THEN "str" ELSE "i32"
-                VT == IF T = "map_str_i32" THEN "i32" ELSE "str"
+  ELSE IF T \in {"map_str_i32", "map_i32_str", "map_tp_i32"} THEN      \* std::map: entries come back ordered by key
+       IF k = "map" /\ T = "map_tp_i32" /\ Len(v[2]) > 1 THEN <<"any">>          \* (ordering of time point keys is not modelled: single entry maps)
+       ELSE IF k = "map" THEN
+            LET KT == IF T = "map_str_i32" THEN "str" ELSE IF T = "map_tp_i32" THEN "tp_ns" ELSE "i32"
+                VT == IF T = "map_i32_str" THEN "str" ELSE "i32"
                 r == LoadMapPairs(v[2], KT, VT, pol, 1, <<>>) IN
             IF r[1] = "val" THEN <<"val", <<"map", SortPairs(r[2])>>>> ELSE r
        ELSE Mismatch(pol)
